@@ -195,9 +195,9 @@ class MatcherErrorPrinter:
     """Pretty-print the TypedDictError instance."""
     ret = ""
     if error.missing:
-      ret += "\nTypedDict missing keys: " + ", ".join(error.missing)
+      ret += "\nTypedDict missing keys: " + ", ".join(sorted(error.missing))
     if error.extra:
-      ret += "\nTypedDict extra keys: " + ", ".join(error.extra)
+      ret += "\nTypedDict extra keys: " + ", ".join(sorted(error.extra))
     if error.bad:
       ret += "\nTypedDict type errors: "
       for k, bad in error.bad:
